@@ -46,6 +46,26 @@ func (it *Interp) formatInt(t *Term, signed bool, width int, zero bool) *Str {
 	if !zero && width > 0 {
 		return it.opaqueStr("fmt-space-padded-int")
 	}
+	// a value that was parsed from a digit string by strconv.Atoi and is printed back with the
+	// same zero-padded width: reuse the original digits (exact when no truncation happened)
+	if zero && width > 0 && len(it.atoiMap) > 0 {
+		if digs, ok := it.atoiMap[t]; ok && len(digs) == width {
+			return it.newStr(digs)
+		}
+		base := t
+		for base.Op == OZext || (base.Op == OExtract && base.B == 0) {
+			base = base.Args[0]
+		}
+		if digs, ok := it.atoiMap[base]; ok && len(digs) == width && base.S.W >= t.S.W {
+			lost := st.Ne(st.Zext(t, base.S.W), base)
+			if _, bhi := st.rangeOf(base); t.S.W >= base.S.W || bhi <= mask(t.S.W) {
+				lost = st.F
+			}
+			if !it.feasible(lost) {
+				return it.newStr(digs)
+			}
+		}
+	}
 	v := t
 	if v.S.W < 64 {
 		if signed {
